@@ -204,4 +204,117 @@ theorem sat_tsat_inverse (t : ℝ) (h0 : 0 ≤ t) (h1 : t ≤ tcritical)
   rw [hTT, hT]
   congr 1; ring
 
+/-- **`sat (tsat p) = p`** over the reals, for every `p` of `tsat`'s range whose saturation
+    temperature is accepted by `sat`'s range test, on the branch of the two quadratics the routines
+    take (`tsat`: discriminants ≥ 0, denominator ≠ 0; `sat`: `2Aβ + B ≤ 0`, `Aβ + B ≠ 0`). -/
+theorem tsat_sat_inverse (p : ℝ) (h0 : pmin ≤ p) (h1 : p ≤ pcritical)
+    (hΔ : 0 ≤ tsDisc (Real.sqrt (Real.sqrt (p / pstar4)) * Real.sqrt (Real.sqrt (p / pstar4))) (Real.sqrt (Real.sqrt (p / pstar4))))
+    (hD : tsDen (Real.sqrt (Real.sqrt (p / pstar4)) * Real.sqrt (Real.sqrt (p / pstar4))) (Real.sqrt (Real.sqrt (p / pstar4))) ≠ 0)
+    (h2 : 0 ≤ tsDisc2 (tsTheta (Real.sqrt (Real.sqrt (p / pstar4)) * Real.sqrt (Real.sqrt (p / pstar4))) (Real.sqrt (Real.sqrt (p / pstar4)))))
+    (hbr : 2 * satA (tsTheta (Real.sqrt (Real.sqrt (p / pstar4)) * Real.sqrt (Real.sqrt (p / pstar4))) (Real.sqrt (Real.sqrt (p / pstar4))))
+        * Real.sqrt (Real.sqrt (p / pstar4))
+      + satB (tsTheta (Real.sqrt (Real.sqrt (p / pstar4)) * Real.sqrt (Real.sqrt (p / pstar4))) (Real.sqrt (Real.sqrt (p / pstar4)))) ≤ 0)
+    (hne : satA (tsTheta (Real.sqrt (Real.sqrt (p / pstar4)) * Real.sqrt (Real.sqrt (p / pstar4))) (Real.sqrt (Real.sqrt (p / pstar4))))
+        * Real.sqrt (Real.sqrt (p / pstar4))
+      + satB (tsTheta (Real.sqrt (Real.sqrt (p / pstar4)) * Real.sqrt (Real.sqrt (p / pstar4))) (Real.sqrt (Real.sqrt (p / pstar4)))) ≠ 0)
+    (hg : 0 ≤ (tsat p).toK ∧ (tsat p).toK ≤ tcritical) :
+    sat (tsat p).toK = Ret.num p := by
+  set β := Real.sqrt (Real.sqrt (p / pstar4)) with hβ
+  set ϑ := tsTheta (β * β) β with hϑ
+  have hpp := pstar4_pos
+  have hp0 : 0 ≤ p / pstar4 := by
+    have : (0 : ℝ) ≤ pmin := by unfold pmin; norm_num
+    exact div_nonneg (by linarith) (le_of_lt hpp)
+  have hb2 : β * β = Real.sqrt (p / pstar4) := Real.mul_self_sqrt (Real.sqrt_nonneg _)
+  have hb4 : β * β * (β * β) = p / pstar4 := by rw [hb2]; exact Real.mul_self_sqrt hp0
+  have hts : tsat p = Ret.num (tsT ϑ - tc_k) := by
+    rw [tsat_eq p h0 h1, ← hβ, ← hb2]
+  have htk : (tsat p).toK = tsT ϑ - tc_k := by rw [hts]; rfl
+  rw [htk] at hg ⊢
+  set T := tsT ϑ with hT
+  have hTT : T - tc_k + tc_k = T := by ring
+  have hw : T - nr4_9 < 0 := by have := T_lt_nr4_9 (T - tc_k) hg.2; rwa [hTT] at this
+  have hroot := tsT_root ϑ h2
+  rw [← hT] at hroot
+  have hth : ϑ = thetaOf T := thetaOf_of_root T ϑ (ne_of_lt hw) hroot
+  rw [sat_eq _ hg.1 hg.2, hTT, ← hth]
+  -- sat's β is the β we started from
+  have root : satA ϑ * β ^ 2 + satB ϑ * β + satC ϑ = 0 := by
+    rw [← satPoly_quadratic_in_beta]; exact satPoly_tsTheta β hΔ hD
+  have hdisc : satDisc ϑ = (2 * satA ϑ * β + satB ϑ) ^ 2 := by
+    unfold satDisc; linear_combination (-4 * satA ϑ) * root
+  have hsq : Real.sqrt (satDisc ϑ) = -(2 * satA ϑ * β + satB ϑ) := by
+    rw [hdisc, ← neg_sq]; exact Real.sqrt_sq (by linarith)
+  have hbeta : satBeta ϑ = β := by
+    unfold satBeta satDen
+    rw [hsq]
+    have hden : -satB ϑ + -(2 * satA ϑ * β + satB ϑ) ≠ 0 := by
+      intro h; apply hne; linear_combination (-1 / 2 : ℝ) * h
+    rw [div_eq_iff hden]
+    linear_combination (2 : ℝ) * root
+  rw [hbeta, mul_assoc, hb4]
+  congr 1
+  field_simp
+
+/-! ### the critical end: the inverse fails there -/
+
+/-- `ϑ` at the critical temperature -/
+noncomputable def thC : ℝ := thetaOf (tcritical + tc_k)
+/-- a rational strictly between `(pcritical/p*)^¼ = 2.16731013659529…` and the `β` that `sat` computes at
+    the critical temperature, `2.16731013660316…` -/
+noncomputable def rC : ℝ := 21673101366 / 10000000000
+
+theorem crit_f1 : satB thC < 0 := by
+  unfold satB thC thetaOf tcritical tc_k nr4_8 nr4_9 nr4_2 nr4_3 nr4_4
+  simp only [tf_lit]; norm_num
+theorem crit_f2 : 0 < satC thC := by
+  unfold satC thC thetaOf tcritical tc_k nr4_8 nr4_9 nr4_5 nr4_6 nr4_7
+  simp only [tf_lit]; norm_num
+theorem crit_f3 : 0 < 2 * satC thC / rC + satB thC := by
+  unfold satC satB thC rC thetaOf tcritical tc_k nr4_8 nr4_9 nr4_2 nr4_3 nr4_4 nr4_5 nr4_6 nr4_7
+  simp only [tf_lit]; norm_num
+theorem crit_f5 : 0 ≤ satDisc thC := by
+  unfold satDisc satA satC satB thC thetaOf tcritical tc_k nr4_8 nr4_9 nr4_0 nr4_1 nr4_2 nr4_3 nr4_4 nr4_5 nr4_6 nr4_7
+  simp only [tf_lit]; norm_num
+theorem crit_f4 : satDisc thC < (2 * satC thC / rC + satB thC) ^ 2 := by
+  unfold satDisc satA satC satB thC rC thetaOf tcritical tc_k nr4_8 nr4_9 nr4_0 nr4_1 nr4_2 nr4_3 nr4_4 nr4_5 nr4_6 nr4_7
+  simp only [tf_lit]; norm_num
+theorem crit_f6 : (pcritical : ℝ) ≤ pstar4 * (rC * rC) * (rC * rC) := by
+  unfold pcritical pstar4 rC
+  simp only [tf_lit]; norm_num
+
+theorem tcritical_nonneg : (0 : ℝ) ≤ tcritical := by unfold tcritical; rw [tf_lit]; norm_num
+
+/-- **The critical end.**  Over the reals (exact arithmetic on the code's constants) the saturation
+    pressure at the code's critical temperature exceeds the code's critical pressure … -/
+theorem sat_critical_exceeds : (pcritical : ℝ) < (sat (tcritical : ℝ)).toK := by
+  have hs := sat_eq tcritical tcritical_nonneg (le_refl _)
+  have hk : (sat tcritical).toK = pstar4 * (satBeta thC * satBeta thC) * (satBeta thC * satBeta thC) := by
+    rw [hs]; rfl
+  rw [hk]
+  have f1 := crit_f1; have f2 := crit_f2; have f3 := crit_f3; have f4 := crit_f4; have f5 := crit_f5; have f6 := crit_f6
+  have hr : (0 : ℝ) < rC := by unfold rC; norm_num
+  have hsq : Real.sqrt (satDisc thC) < 2 * satC thC / rC + satB thC := (Real.sqrt_lt' f3).mpr f4
+  have hden0 : 0 < satDen thC := by
+    unfold satDen; have := Real.sqrt_nonneg (satDisc thC); linarith
+  have hden1 : satDen thC < 2 * satC thC / rC := by unfold satDen; linarith
+  have hβ : rC < satBeta thC := by
+    unfold satBeta
+    rw [lt_div_iff₀ hden0]
+    have := mul_lt_mul_of_pos_left hden1 hr
+    have e : rC * (2 * satC thC / rC) = 2 * satC thC := by field_simp
+    linarith
+  have hpp := pstar4_pos
+  have h2 : rC * rC < satBeta thC * satBeta thC := mul_lt_mul'' hβ hβ (le_of_lt hr) (le_of_lt hr)
+  have h4 : rC * rC * (rC * rC) < satBeta thC * satBeta thC * (satBeta thC * satBeta thC) :=
+    mul_lt_mul'' h2 h2 (le_of_lt (mul_pos hr hr)) (le_of_lt (mul_pos hr hr))
+  calc (pcritical : ℝ) ≤ pstar4 * (rC * rC) * (rC * rC) := f6
+    _ = pstar4 * (rC * rC * (rC * rC)) := by ring
+    _ < pstar4 * (satBeta thC * satBeta thC * (satBeta thC * satBeta thC)) := mul_lt_mul_of_pos_left h4 hpp
+    _ = pstar4 * (satBeta thC * satBeta thC) * (satBeta thC * satBeta thC) := by ring
+
+/-- … hence `tsat (sat tcritical)` is `None`: the two routines are **not** inverse at the critical end. -/
+theorem tsat_sat_critical_none : tsat (sat (tcritical : ℝ)).toK = Ret.none :=
+  tsat_none _ (fun h => absurd h.2 (not_le.mpr sat_critical_exceeds))
+
 end Proofs.Iapws
